@@ -18,7 +18,7 @@ import (
 
 // ConnSpec: the state a connection is brought into before Close is called.
 type ConnSpec struct {
-	State string `json:"state"` // idle | midbatch | midmsg | admitted | registered | in-stmt | in-exec | in-parser | pipelined
+	State string `json:"state"` // idle | after-panic | midbatch | midmsg | admitted | registered | in-stmt | in-exec | in-parser | pipelined
 }
 
 // CloserSpec: one Close caller and the point it is (cooperatively) held at.
@@ -103,6 +103,7 @@ func table(n int) script.Table {
 	tb := script.Table{Q: map[string]script.Outcome{
 		"select 1": {Stmts: []script.Stmt{{Cols: []script.Col{{Name: "a", T: "int4"}}, Ops: []script.Op{{K: "row", Vals: []script.Val{{T: "int4", I: 1}}}, {K: "complete", Tag: "SELECT 1"}}}}},
 	}}
+	tb.Q["panics"] = script.Outcome{Stmts: []script.Stmt{{Ops: []script.Op{{K: "panic"}}}}}
 	for i := 0; i < n; i++ {
 		tb.Q[fmt.Sprintf("gated%d", i)] = script.Outcome{Stmts: []script.Stmt{{Ops: []script.Op{{K: "gate", Gate: fmt.Sprintf("g%d", i)}, {K: "complete", Tag: "GATED"}}}}}
 		tb.Q[fmt.Sprintf("pgated%d", i)] = script.Outcome{Gate: fmt.Sprintf("g%d", i), Stmts: []script.Stmt{{Ops: []script.Op{{K: "complete", Tag: "PGATED"}}}}}
@@ -145,7 +146,7 @@ func Run(c Case) (res core.Result) {
 	for _, cs := range c.Conns {
 		res.Labels = append(res.Labels, "conn="+cs.State)
 		switch cs.State {
-		case "admitted", "registered", "in-stmt", "in-exec", "in-parser", "pipelined":
+		case "admitted", "registered", "in-stmt", "in-exec", "in-parser", "pipelined", "after-panic":
 			inflight++
 		}
 	}
@@ -187,6 +188,15 @@ func Run(c Case) (res core.Result) {
 		}
 		switch cs.State {
 		case "idle":
+		case "after-panic":
+			// an earlier statement of this connection panicked inside Execute (recovered and reported by
+			// the library); the connection is idle again - and, when the small space puts a second phase
+			// behind it, runs a gated statement: what was recovered must not unbalance the bookkeeping
+			b := append(pgwire.Parse("", "panics", nil), pgwire.Bind("", "", nil, nil, nil)...)
+			b = append(b, pgwire.Execute("", 0)...)
+			s.Send(append(b, pgwire.Sync()...))
+			s.C.Send(pgwire.Query(gq))
+			waitGate()
 		case "midbatch":
 			// half way through an extended-query series: Parse and Bind answered, no Sync yet; the rest
 			// of the series arrives after Close has returned and must not start anything
